@@ -20,8 +20,8 @@ type genModel struct {
 	Name    string
 	Ordered bool
 	Pos     token.Pos
-	Tags    []int64        // tags of fields with a TLV number, definition order
-	Index   map[int64]int  // tag → index among all +field fields
+	Tags    []int64       // tags of fields with a TLV number, definition order
+	Index   map[int64]int // tag → index among all +field fields
 	Fields  []string
 	Extra   []int64 // value-element type numbers of map fields
 }
